@@ -31,7 +31,7 @@ func keyDimsFor(t *TableDef) []string {
 }
 
 func genKeyPred(r *Rng, u *Universe, dims []string, depth int) *Pred {
-	sub := &Universe{}
+	sub := &Universe{EmptyDims: u.EmptyDims}
 	for _, d := range u.Dims {
 		for _, k := range dims {
 			if d.Name == k {
@@ -48,6 +48,7 @@ func genKeyPred(r *Rng, u *Universe, dims []string, depth int) *Pred {
 func genC08(seed uint64, tier string) *Plan {
 	r := NewRng(seed, 8)
 	u := genUniverse(r)
+	u.EmptyDims = 0.04
 	p := &Plan{Prop: "C08", Seed: seed, World: "S-twin"}
 	p.Cfg.CoalesceNanos = int64(time.Millisecond)
 	span := int64(PickOne(r, []time.Duration{8 * time.Second, 40 * time.Second, 3 * time.Minute}))
@@ -236,6 +237,13 @@ func execC08(e *Env, p *Plan) error {
 		}
 		switch op.K {
 		case "ins":
+			if b != nil && EvalPred(pred, op.P.Dims) == pUnknown {
+				// the predicate compares a dimension the point does not have:
+				// whether such a point "satisfies" it is not defined by the
+				// property (zenodb's expressions are two-valued over nil)
+				e.Count("skipped.point-with-undefined-predicate")
+				break
+			}
 			settled = false
 			if err := a.Insert(op.P); err != nil {
 				return err
@@ -325,10 +333,19 @@ func execC08(e *Env, p *Plan) error {
 				break
 			}
 			vals := map[string]Val{}
+			nullValue := false
 			for _, r := range alone.Rows {
 				if v, ok := kvGet(r.KeyKVs, dim); ok {
 					vals[v.Canon()] = v
+				} else {
+					nullValue = true
 				}
+			}
+			if nullValue {
+				// the subquery returns "no value" for some row, which no literal
+				// list can contain
+				e.Count("skipped.insub-null-value")
+				break
 			}
 			keys := make([]string, 0, len(vals))
 			for k := range vals {
@@ -346,6 +363,9 @@ func execC08(e *Env, p *Plan) error {
 				}
 			}
 			litSQL := strings.Replace(op.Strs[1], "@@LIST@@", strings.Join(lits, ", "), 1)
+			// (both planned at the same instant: running the subquery on its own
+			// took simulated time)
+			psub = a.Prepare(op.S, true)
 			plit := a.Prepare(litSQL, true)
 			qs, ql := psub.Run(QOpts{}), plit.Run(QOpts{})
 			if qs.Panicked || ql.Panicked {
